@@ -15,7 +15,8 @@ FLOORS = {
     'quick': {'distinct_nontrivial': 2500, 'embedded-vs-post': 6000, 'traversal-comparisons': 18000, 'callback-calls-logged': 100000,
               'feature:callback-on-node-through-inlining': 1000, 'feature:callback-on-node-through-expand1': 1000, 'feature:callback-on-node-with-placeholder': 500,
               'feature:token-callback': 2000, 'feature:v_args-inline': 1500, 'feature:v_args-tree': 1500, 'feature:alias-callback': 1500,
-              'feature:template-callback': 100, 'embedded-inplace-class': 300},
+              'feature:template-callback': 100, 'embedded-inplace-class': 300, 'traversal-comparisons-with-Discard': 8000,
+              'feature:discarded-subtree': 1500, 'feature:discarded-token': 1500},
     'thorough-unused': {'distinct_nontrivial': 40000, 'embedded-vs-post': 90000},
 }
 RULE = ("cases = (LALR grammar with shaping features, generated pure transformer, accepted input); the transformer has callbacks "
@@ -23,10 +24,11 @@ RULE = ("cases = (LALR grammar with shaping features, generated pure transformer
         "count, string join, k-th child}, plain / v_args(inline=True) / v_args(tree=True); oracle: "
         "Lark(g, parser='lalr', transformer=T).parse(w) == T.transform(Lark(g, parser='lalr').parse(w)); the four traversal "
         "classes with the same callbacks return equal results on (copies of) the same tree, their call logs hold exactly one "
-        "call per node that has a callback and no callback sees an untransformed child that has a callback of its own; "
+        "call per node that has a callback and no callback sees an untransformed child that has a callback of its own; the "
+        "same again with a third of the callbacks returning Discard; "
         "non-trivial = a callback fired on a node produced through inlining, a ?-rule or with a None placeholder; distinct by "
         "(grammar, transformer spec, input)")
-ASSUMPTIONS = ["__default__ and __default_token__ are left at their defaults, no Discard, no meta arguments (the statement's exceptions)",
+ASSUMPTIONS = ["__default__ and __default_token__ are left at their defaults, no meta arguments; Discard only in the comparison of the four traversal classes (documented as disabled for the embedded mode), never on the root",
                "callbacks are pure; the call log is kept outside the returned values",
                "embedding a Transformer_InPlace* instance is a separate class judged against finding F-C16-1"]
 
@@ -59,9 +61,21 @@ def gen_spec(rng, G):
     return spec
 
 
+def gen_dspec(rng, spec):
+    """the same callbacks, some of them returning Discard: documented for every traversal class (only the embedded mode is
+    excepted), so the four classes must still agree"""
+    d = {}
+    for n in sorted(spec):
+        kind, style = spec[n]
+        if rng.random() < 0.35:
+            kind = 'tok-discard' if style == 'token' else 'discard'
+        d[n] = [kind, style]
+    return d
+
+
 def make_T(base_name, spec, log):
     import lark
-    from lark import v_args, Tree, Token
+    from lark import v_args, Tree, Token, Discard
     Base = getattr(lark.visitors, base_name)
     has_cb = set(k for k, v in spec.items() if v[1] != 'token')
 
@@ -71,6 +85,8 @@ def make_T(base_name, spec, log):
         for c in children:
             if isinstance(c, Tree) and str(c.data) in has_cb:
                 log.append(('UNTRANSFORMED-CHILD', name, str(c.data)))
+        if kind == 'discard':
+            return Discard
         if kind == 'tuple':
             return (name, tuple(children))
         if kind == 'count':
@@ -102,6 +118,8 @@ def make_T(base_name, spec, log):
         else:
             def f(self, tok, name=name, kind=kind):
                 log.append(('tok', name))
+                if kind == 'tok-discard':
+                    return Discard
                 if kind == 'tok-upper':
                     return tok.update(value=tok.value.upper())
                 if kind == 'tok-len':
@@ -186,6 +204,7 @@ def run_grammar(ctx, G, rng, n_specs, texts):
         if not spec:
             continue
         case0 = {'grammar': G, 'spec': spec}
+        dspec = gen_dspec(rng, spec)
         log0 = []
         T0 = make_T('Transformer', spec, log0)
         st, emb = build(ctx, text, parser='lalr', transformer=T0)
@@ -245,6 +264,33 @@ def run_grammar(ctx, G, rng, n_specs, texts):
                 if results[cls] != results['Transformer']:
                     ctx.violation('traversal-classes-disagree:%s' % cls, dict(case, cls=cls), {'Transformer': results['Transformer'], cls: results[cls]})
                     break
+            # ---- the four classes again, with some callbacks returning Discard
+            if str(tree.data) in dspec and dspec[str(tree.data)][0] == 'discard':
+                ctx.count('skipped:Discard-on-the-root')       # "won't appear in the parent": the root has none
+            elif any(v[0].endswith('discard') for v in dspec.values()):
+                dres = {}
+                for cls in CLASSES:
+                    lg = []
+                    T = make_T(cls, dspec, lg)
+                    r = call(ctx, 'transform', T.transform, copy.deepcopy(tree), raw=True)
+                    dres[cls] = [r[0], canon_val(r[1]) if r[0] == 'ok' else r[1]]
+                    ctx.count('traversal-comparisons-with-Discard')
+                    ctx.judged([text, dspec, w, cls, 'discard'], nontriv, [])
+                    calls = {}
+                    for k, n in lg:
+                        if k in ('call', 'tok'):
+                            calls[n] = calls.get(n, 0) + 1
+                    dcase = dict(case, cls=cls, dspec=dspec)
+                    if calls != expect_calls:
+                        ctx.violation('with-Discard:callback-not-called-exactly-once-per-node:%s' % cls, dcase, {'calls': calls, 'nodes': expect_calls})
+                        break
+                    if dres[cls] != dres['Transformer']:
+                        ctx.violation('with-Discard:traversal-classes-disagree:%s' % cls, dcase, {'Transformer': dres['Transformer'], cls: dres[cls]})
+                        break
+                if any(v[0] == 'discard' for k, v in dspec.items()) and any(str(st_.data) in dspec and dspec[str(st_.data)][0] == 'discard' for st_ in tree.iter_subtrees()):
+                    ctx.count('feature:discarded-subtree')
+                if any(v[0] == 'tok-discard' for v in dspec.values()):
+                    ctx.count('feature:discarded-token')
             # ---- embedded in-place transformer (separate class)
             if st == 'ok':
                 del logi[:]
@@ -298,10 +344,12 @@ def replay(ctx, case):
     rng = ctx.rng
     texts = [case['input']] if 'input' in case else sentences(rng, G, 6)
     # the spec is replayed by monkeypatching the generator
-    global gen_spec
-    old = gen_spec
+    global gen_spec, gen_dspec
+    old, oldd = gen_spec, gen_dspec
     gen_spec = lambda rng, G: case['spec']
+    if 'dspec' in case:
+        gen_dspec = lambda rng, spec: case['dspec']
     try:
         run_grammar(ctx, G, rng, 1, texts)
     finally:
-        gen_spec = old
+        gen_spec, gen_dspec = old, oldd
